@@ -211,6 +211,13 @@ func (g *genState) schemaC03(idx int) schemaSpec {
 		dim = []int{2, 4, 8}[r.IntN(3)]
 		q = quantSpec{kind: 3, ncent: 2 + r.IntN(3), nsub: 2, trigger: 4 + r.IntN(5)}
 	}
+	if (idx/3)%5 == 1 && idx%2 == 1 {
+		// a bit-metric graph index that also carries a binary quantiser block with a threshold and a metric of its
+		// own: the block is not used (bits are taken at 0.5, the distance is the index metric), whatever it says
+		m = []string{"hamming", "jaccard"}[(idx/30)%2]
+		q = quantSpec{kind: 1, thr: []float32{0.2, 0.75, -0.5, 1.5}[r.IntN(4)], metric: map[string]string{"hamming": "jaccard", "jaccard": "hamming"}[m]}
+		g.softBits = true
+	}
 	g.dim = dim
 	g.vecMetric = m
 	degree := []int{3, 4, 8, 32, 64}[r.IntN(5)]
